@@ -283,6 +283,20 @@ func preload(tx *gorm.DB, rel *schema.Relationship, conds []interface{}, preload
 			}
 		}
 
+		// conditions a scope function joined with Or stay one unit: the key filter applies to all of them
+		if c, ok := tx.Statement.Clauses["WHERE"]; ok {
+			if where, ok := c.Expression.(clause.Where); ok && len(where.Exprs) > 1 {
+				for _, expr := range where.Exprs {
+					if _, ok := expr.(clause.OrConditions); ok {
+						where.Exprs = []clause.Expression{clause.And(where.Exprs...)}
+						c.Expression = where
+						tx.Statement.Clauses["WHERE"] = c
+						break
+					}
+				}
+			}
+		}
+
 		if err := tx.Where(clause.IN{Column: column, Values: values}).Find(reflectResults.Addr().Interface(), inlineConds...).Error; err != nil {
 			return err
 		}
